@@ -7,7 +7,9 @@ from props.c10 import hx, spec
 SCAL = ['0', '-0', '1', '-12', '3.14', '-0.50', '12345678901234567890123', '0.000', 'true', 'false', 'null', '""', '"a"', '"a b"', '"\\u0041"', '"\\n\\t"',
         '"\\\\"', '"\\""', '"\\/"', '"é"', '"\\u00e9"', '"\\ud83d\\ude00"', '"😀"', '"<&>"', '"\\u2028"', '"//"', '"/*"', '"#"', '"@t"', '"{"', '"1"', '"null"']
 KEYS = ['"a"', '"b"', '"a b"', '"\\u0061b"', '""', '"\\n"', '"\\""', '"é"', '"\\u00e9x"', '"<k>"', '"\\ud83d\\ude00"', '"k1"', '"@k"', '"#"', '"//"', '"0"',
-        '"\\u0001"', '"a\\u0007b"', '"\\u000b"', '"\\u001f\\u0000"', '"del\\u007f"', '"\\\\"', '"\\/\\b\\f\\r\\t"', '"\\u2028\\u2029"', '"\\u0080\\u009f"', '"\\udb40\\udc01"', '"\\ufffe\\uffff"', '"&amp;\'"']
+        '"\\u0001"', '"a\\u0007b"', '"\\u000b"', '"\\u001f\\u0000"', '"del\\u007f"', '"\\\\"', '"\\/\\b\\f\\r\\t"', '"\\u2028\\u2029"', '"\\u0080\\u009f"', '"\\udb40\\udc01"', '"\\ufffe\\uffff"', '"&amp;\'"',
+        # keys whose own text looks like a JSON string or a type name again
+        '"\\"a\\""', '"\\"\\""', '"\\"n\\u0061me\\""', '"\\"@t\\""', '"\\"a"', '"a\\""']
 WS = ['', ' ', '  ', '\n', '\r\n', '\t', '\n  ', ' \n']
 
 
